@@ -75,6 +75,7 @@ impl ChannelRegion for AU915Region {
 }
 
 impl FixedChannelRegion for AU915Region {
+    const JOIN_DR_125KHZ: DR = DR::_2;
     const JOIN_DR_500KHZ: DR = DR::_6;
     fn uplink_channels() -> &'static [u32; 72] {
         &UPLINK_CHANNEL_MAP
